@@ -55,6 +55,26 @@ pub fn run_c01(r: &mut Report) {
             if !(junk && *what == "same id") && one != Ok(true) && bad.len() < 6 { bad.push(format!("stray entry labelled {} ({}, {}), owner demanded o1: {:?}", what, if junk { "junk" } else { "copy of the genuine signature" }, pos, one)); }
         } } }
         r.case("owner-gate-with-stray-signature-entries", json!({"inputs": n}), "rejected when an owner did not sign, accepted when the demanded owner signed", format!("{:?}", bad), bad.is_empty());
+        // the gate is the same whatever summary name the caller asks for (a named call is how delegations are verified): content
+        // edited after signing, a signature value that is junk, another key's signature under the owner's id - all rejected
+        let mut bad2: Vec<String> = vec![]; let mut n2 = 0;
+        let honest = serde_json::to_value(&lay).unwrap();
+        let foreign = serde_json::to_value(&signed_layout(&match &lay.metadata { MetadataWrapper::Layout(l) => l.clone(), _ => unreachable!() }, &[&o3]).signatures[0]).unwrap();
+        let mut docs: Vec<(&str, serde_json::Value, bool)> = vec![("honest", honest.clone(), true)];
+        { let mut v = honest.clone(); v["signed"]["readme"] = json!("edited after signing"); docs.push(("readme edited", v, false)); }
+        { let mut v = honest.clone(); v["signed"]["steps"][0]["threshold"] = json!(0); docs.push(("step threshold edited", v, false)); }
+        { let mut v = honest.clone(); v["signed"]["steps"][0]["expected_products"] = json!([["DISALLOW", "nothing"]]); docs.push(("step rules edited", v, false)); }
+        { let mut v = honest.clone(); v["signed"]["expires"] = json!("2999-01-01T00:00:00Z"); docs.push(("expiry edited", v, false)); }
+        { let mut v = honest.clone(); v["signatures"][0]["sig"] = json!("00".repeat(64)); docs.push(("signature value is junk", v, false)); }
+        { let mut v = honest.clone(); v["signatures"][0]["sig"] = foreign["sig"].clone(); docs.push(("another key's signature under the owner's id", v, false)); }
+        { let mut v = honest.clone(); v["signatures"] = json!([]); docs.push(("no signature entries", v, false)); }
+        for (what, v, expect) in &docs { for summary_name in [None, Some("release"), Some(""), Some("a")] {
+            let mb: Metablock = match serde_json::from_str(&v.to_string()) { Ok(m) => m, Err(_) => continue };
+            n2 += 1;
+            let res = no_panic(|| in_toto_verify(&mb, owner_keys(&[&o1]), d.path().to_str().unwrap(), summary_name).is_ok());
+            if res != Ok(*expect) && bad2.len() < 8 { bad2.push(format!("{} with summary name {:?}: {:?}, expected {}", what, summary_name, res, expect)); }
+        } }
+        r.case("owner-gate-whatever-the-summary-name", json!({"inputs": n2}), "honest accepted, everything else rejected, with and without a summary name", format!("{:?}", bad2), bad2.is_empty() && n2 >= 28);
     }
     let cases: Vec<(&str, Vec<&PrivateKey>, HashMap<KeyId, PublicKey>, bool)> = vec![
         ("exact-key-set", vec![&o1], owner_keys(&[&o1]), true),
@@ -577,32 +597,7 @@ pub fn run_c04(r: &mut Report) {
             }
         }
     }
-    // ECDSA signatures come in several DER lengths (r and s lose leading zero bytes): every length ring produces is accepted.
-    // Signs the same block until every length from 72 down to a rare short one has been seen (bounded search).
-    {
-        let ec = std::fs::read("/repo/tests/ecdsa/ec.pk8.der").ok().and_then(|d| PrivateKey::from_pkcs8(&d, in_toto::crypto::SignatureScheme::EcdsaP256Sha256).ok());
-        if let Some(ec) = ec {
-            let base = signed_link(&l, &[&ec]);
-            let msg_block = base.clone();
-            let mut seen: std::collections::BTreeMap<usize, bool> = std::collections::BTreeMap::new();
-            let budget = crate::util::scale(250_000, 1_500_000);
-            let mut tries = 0usize;
-            while tries < budget {
-                tries += 1;
-                let again = signed_link(&l, &[&ec]);
-                let sig_hex = serde_json::to_value(&again.signatures[0]).unwrap()["sig"].as_str().unwrap().to_string();
-                let len = sig_hex.len() / 2;
-                if seen.contains_key(&len) { continue; }
-                let mut m = msg_block.clone();
-                m.signatures = again.signatures.clone();
-                let ok = matches!(no_panic(|| m.verify(1, [ec.public()])), Ok(Ok(_)));
-                seen.insert(len, ok);
-                if len <= 68 { break; }
-            }
-            let bad: Vec<&usize> = seen.iter().filter(|(_, ok)| !**ok).map(|(l, _)| l).collect();
-            r.case("ecdsa-signature-lengths", json!({"signatures_made": tries, "lengths_seen": seen.keys().collect::<Vec<_>>()}), "a valid signature of every length is accepted", format!("rejected lengths: {:?}", bad), bad.is_empty() && seen.len() >= 3);
-        }
-    }
+    ecdsa_signature_lengths(r);
     // key material x declared scheme: a key is checked under its DECLARED scheme; a signature made under the scheme that fits the
     // material, re-attributed to a key that declares another scheme, is not a valid signature of that key
     {
@@ -894,3 +889,35 @@ pub fn agreement_matrix(r: &mut Report, repetitions: usize, tag: &str) {
         r.case("agreement-whatever-the-command-reported", json!({"cells": cells}), "Err exactly when the link dissents", format!("{:?}", bad), bad.is_empty());
     }
 }
+
+/// C04 / C09: ECDSA signatures come in several DER lengths (r and s lose leading zero bytes): every length ring produces is accepted,
+/// on the block as signed and after both JSON layouts.  Signs the same block until every length from 72 down to a rare short one
+/// has been seen (bounded search).
+pub fn ecdsa_signature_lengths(r: &mut Report) {
+    let l = link("x", &[], &[("a", 1)]);
+    let ec = std::fs::read("/repo/tests/ecdsa/ec.pk8.der").ok().and_then(|d| PrivateKey::from_pkcs8(&d, in_toto::crypto::SignatureScheme::EcdsaP256Sha256).ok());
+    if let Some(ec) = ec {
+        let msg_block = signed_link(&l, &[&ec]);
+        let mut seen: std::collections::BTreeMap<usize, bool> = std::collections::BTreeMap::new();
+        let budget = crate::util::scale(250_000, 1_500_000);
+        let mut tries = 0usize;
+        while tries < budget {
+            tries += 1;
+            let again = signed_link(&l, &[&ec]);
+            let sig_hex = serde_json::to_value(&again.signatures[0]).unwrap()["sig"].as_str().unwrap().to_string();
+            let len = sig_hex.len() / 2;
+            if seen.contains_key(&len) { continue; }
+            let mut m = msg_block.clone();
+            m.signatures = again.signatures.clone();
+            let mut ok = matches!(no_panic(|| m.verify(1, [ec.public()])), Ok(Ok(_)));
+            for text in [serde_json::to_string(&m).unwrap(), serde_json::to_string_pretty(&m).unwrap()] {
+                ok = ok && matches!(serde_json::from_str::<Metablock>(&text), Ok(back) if matches!(no_panic(|| back.verify(1, [ec.public()])), Ok(Ok(_))));
+            }
+            seen.insert(len, ok);
+            if len <= 68 { break; }
+        }
+        let bad: Vec<&usize> = seen.iter().filter(|(_, ok)| !**ok).map(|(l, _)| l).collect();
+        r.case("ecdsa-signature-lengths", json!({"signatures_made": tries, "lengths_seen": seen.keys().collect::<Vec<_>>()}), "a valid signature of every length is accepted (as signed and after both JSON layouts)", format!("rejected lengths: {:?}", bad), bad.is_empty() && seen.len() >= 3);
+    }
+}
+
